@@ -762,7 +762,23 @@ def separator_condition_rule(ctx, prefix):
                 seps.append(n)
     if not seps:
         return [ob("%s.sep/condition" % prefix, None, ctx.where(f), "the separator write is not in a form this rule reads")]
-    extra, asked = [], False
+    extra, asked, adjacency = [], False, []
+
+    def adjacency_test(e, depth=0):
+        """`e` (possibly through a local) is a conjunction one of whose members compares a position kept in the output (`self.x`) with
+        the position of the token being written: the two tokens touched each other in the source"""
+        e = sir.strip_ref(e)
+        while e.get("k") == "paren":
+            e = e["e"]
+        if e.get("k") == "path" and len(e["segs"]) == 1 and depth < 3:
+            inits = [l_["init"] for l_ in sir.walk(f.body) if l_.get("k") == "local" and l_["pat"].get("name") == e["segs"][0] and l_.get("init") is not None]
+            return len(inits) == 1 and adjacency_test(inits[0], depth + 1)
+        if e.get("k") == "binary" and e["op"] == "&&":
+            return adjacency_test(e["l"], depth) or adjacency_test(e["r"], depth)
+        if e.get("k") == "binary" and e["op"] == "==":
+            l_, r_ = sir.expr_str(e["l"]).replace(" ", ""), sir.expr_str(e["r"]).replace(" ", "")
+            return any(a.startswith("self.") and "position" in b and not b.startswith("self.") for a, b in ((l_, r_), (r_, l_)))
+        return False
     for n in seps:
         for kind, subj, pol in G.get(id(n), []):
             t = sir.expr_str(subj) if kind == "cond" else subj[1]
@@ -773,13 +789,70 @@ def separator_condition_rule(ctx, prefix):
                 inits = [l_["init"] for l_ in sir.walk(f.body) if l_.get("k") == "local" and l_["pat"].get("name") == subj["segs"][0] and l_.get("init") is not None]
                 if inits and inits[0].get("k") == "mcall" and inits[0]["m"] == "needs_separator_when_before" and pol:
                     asked = True
+                elif not pol and adjacency_test(subj):
+                    # the one legitimate exception: two source tokens that touched each other are written as they stood
+                    adjacency.append(t[:50])
                 else:
                     extra.append(t[:50])
             else:
                 extra.append(t[:50])
     ok = asked and not extra
-    return [ob("%s.sep/condition" % prefix, ok, ctx.where(f), "the separating blank is written exactly when needs_separator_when_before says so" if ok else "the separating blank also depends on %s" % extra[:2] if extra else "the separator rule of cssparser is not consulted",
-               witness=None if ok else "counter-increment: item -1 is emitted as `item-1`")]
+    out = [ob("%s.sep/condition" % prefix, ok, ctx.where(f), ("the separating blank is written exactly when needs_separator_when_before says so" + (", unless the two tokens touched each other in the source (`%s`)" % adjacency[0] if adjacency else "")) if ok else "the separating blank also depends on %s" % extra[:2] if extra else "the separator rule of cssparser is not consulted",
+              witness=None if ok else "counter-increment: item -1 is emitted as `item-1`")]
+    # The serialization types alone cannot decide the blank: (Ident, Number) is `a 1` where it is needed and `U+0` where it destroys a
+    # unicode-range; (Dimension, Number) is `1px 2` and `2n+1`.  A decision procedure that reads nothing but the two types is wrong for
+    # one of each pair, so the decision must also read whether the tokens were adjacent in the source.
+    if prefix != "C08":
+        return out
+    # what the exception may cover: (1) only a token that is written with a leading sign - cssparser prints `.5` as `0.5`, so a glued
+    # unsigned number could merge with an identifier in front of it (`a.5` -> `a0.5`); (2) only tokens read from the source - a generated
+    # or rewritten token (class prefix, rpx -> vw, synthesised brackets) has no source end, so nothing is ever glued to or after it.
+    def conjuncts(e, depth=0):
+        e = sir.strip_ref(e)
+        while e.get("k") == "paren":
+            e = e["e"]
+        if e.get("k") == "path" and len(e["segs"]) == 1 and depth < 3:
+            inits = [l_["init"] for l_ in sir.walk(f.body) if l_.get("k") == "local" and l_["pat"].get("name") == e["segs"][0] and l_.get("init") is not None]
+            if len(inits) == 1:
+                return conjuncts(inits[0], depth + 1)
+        if e.get("k") == "binary" and e["op"] == "&&":
+            return conjuncts(e["l"], depth) + conjuncts(e["r"], depth)
+        return [e]
+    if adjacency:
+        signed_ok = False
+        for n in seps:
+            for kind, subj, pol in G.get(id(n), []):
+                if kind == "cond" and subj.get("k") == "path" and not pol and adjacency_test(subj):
+                    for c in conjuncts(subj):
+                        if c.get("k") == "match":
+                            wild = [a for a in c["arms"] if a["pat"].get("k") == "p_wild"]
+                            named = set(v for a in c["arms"] if a["pat"].get("k") != "p_wild" for v in re.findall(r"Token::(\w+)", sir.pat_str(a["pat"])))
+                            if wild and sir.expr_str(wild[0]["body"]).lower() == "false" and named and named <= {"Number", "Dimension", "Percentage"} and \
+                                    all("has_sign" in sir.expr_str(a["body"]) or "is_sign_negative" in sir.expr_str(a["body"]) for a in c["arms"] if a["pat"].get("k") != "p_wild"):
+                                signed_ok = True
+        out.append(ob("C08.sep/adjacency/signed-only", signed_ok, ctx.where(f),
+                      "only a numeric token that is written with a leading sign is glued to its predecessor" if signed_ok else
+                      "the glue condition is not restricted to tokens written with a leading sign",
+                      witness=None if signed_ok else "`x:a.5` is emitted as `a0.5`: the identifier swallows the digit"))
+        ends = []
+        for g in ctx.sc.fns:
+            if not g.body or (g.trait and g.trait.split("::")[-1] == "Clone"):     # a copy of a token is the same token
+                continue
+            for n in sir.walk(g.body):
+                if n.get("k") == "struct" and n["path"].split("::")[-1] in ("StepToken", "Self") and any(x["name"] == "end" for x in n["fields"]):
+                    v = [sir.expr_str(x["e"]).replace(" ", "") for x in n["fields"] if x["name"] == "end"][0]
+                    ends.append((g.qual, g.base, v))
+        gen_bad = [q for q, b, v in ends if b != "StepParser" and v != "None"]
+        src_ok = [q for q, b, v in ends if b == "StepParser"]
+        out.append(ob("C08.sep/adjacency/source-tokens-only", bool(ends) and not gen_bad and bool(src_ok), ctx.where(f),
+                      "tokens built outside the reader carry no source end (%d constructors), the reader records it (%s)" % (len(ends) - len(src_ok), ", ".join(s_.split("::")[-1] for s_ in src_ok)) if ends and not gen_bad and src_ok else
+                      "a generated token claims a source end: %s" % gen_bad[:2] if gen_bad else "no constructor of the token type sets the source end",
+                      witness=None if not gen_bad else "`a+.5rpx`: the rewritten `+0.0667vw`.. tokens are glued to neighbours they did not touch"))
+    out.append(ob("%s.sep/adjacency" % prefix, bool(adjacency) if (asked or extra or adjacency) else None, ctx.where(f),
+                  "the blank is left out when the token touched its predecessor in the source (`%s`)" % adjacency[0] if adjacency else
+                  "the blank between two tokens is decided from their serialization types alone: a space is inserted into `U+0-7F` and `2n+1`",
+                  witness=None if adjacency else "`unicode-range:U+0-7F` is emitted as `U +0 -7F`; `:nth-child(2n+1)` as `2n +1`"))
+    return out
 
 
 def sep_rule(ctx, prefix):
